@@ -517,6 +517,7 @@ func interleaving(wu []memwire.WEvent, ru []memwire.REvent, wd []memwire.WEvent,
 func TestCheck(t *testing.T) {
 	r := mon.Start(t, "C01")
 	defer r.Finish()
+	r.SpinWatch(memwire.BytesMoved)
 	r.Note("rule", "grid of (IAT mode 0/1/2) x (biased/uniform tables) x (4 scenarios incl. server payload coalesced with the handshake response) x reader chunk policies on both wire directions (all-available, 1, 2, 7, 21, 45, 1447, 1448, 1449, PRNG<=64, PRNG<=3000, 4 KiB back-pressure window, all-but-the-last-byte of whatever is available); plus searched single-valued tables ({22}, {210}, {1365}) with write sizes whose burst gets no padding, so that the last data frame is the last thing in flight; per connection a fresh bridge identity/DRBG seed and PRNG write-size scripts from {0,1,2,1426..1428,2853..2855,4096,8192,23168,65536,PRNG} with virtual pauses, plus a family of single large writes (32767..200003 bytes, not multiples of 32 KiB/64 KiB) in every IAT mode; every connection has 4 concurrent goroutines under the race detector. A case is non-trivial when the handshake completed and payload flowed; distinct = distinct (mode,bias,scenario,policies,seed).")
 	dir := o4.StateDir("c01")
 	nPer := r.Pick(3, 30) // connections per grid cell
@@ -580,6 +581,60 @@ func TestCheck(t *testing.T) {
 					}()
 				}
 			}
+		})
+	}
+
+	// several connections alive at once in one process (two bridges, all IAT
+	// modes), used in an interleaved way: whatever a connection keeps between
+	// calls (receive buffers, distributions, scratch space) must be its own
+	r.Note("interleaved_connections", "additional family (mon.Interleave): 4 connections to 2 bridges alive at once in one bubble (IAT modes mixed), driven round-robin from one goroutine: all endpoints write, then read in pieces of 1..24 bytes, one Read per endpoint per round, write again, drain; every direction carries its own PRF stream")
+	for g := 0; g < r.Pick(12, 200); g++ {
+		g := g
+		r.Case(fmt.Sprintf("interleaved-connections/%03d", g), func(c *mon.Case) {
+			func() {
+				defer func() {
+					if e := recover(); e != nil {
+						sig := "panic-in-case"
+						if strings.HasPrefix(fmt.Sprint(e), "deadlock:") {
+							sig = "wedge/goroutines-still-blocked-after-close"
+						}
+						c.Violation(sig, fmt.Sprintf("%v; interleaved group %d", e, g), nil)
+					}
+				}()
+				synctest.Test(c.T, func(t *testing.T) {
+					rng := mon.NewRand(r.Sub("ilb", g))
+					flag.Set("obfs4-distBias", fmt.Sprint(g%2 == 1))
+					var links []mon.Link
+					var wires []*memwire.Conn
+					for bi := 0; bi < 2; bi++ {
+						b := o4.NewBridge(rng, (g+bi)%3)
+						sf, err := o4.ServerFactory(dir, b)
+						if err != nil {
+							c.Violation("setup/server-factory", err.Error(), nil)
+							return
+						}
+						for k := 0; k < 2; k++ {
+							cw, sw := memwire.Pair(memwire.Options{})
+							wires = append(wires, cw, sw)
+							var sc net.Conn
+							var serr error
+							done := make(chan struct{})
+							c.Go(func() { close(done) }, func() { sc, serr = sf.WrapConn(sw) })
+							cc, cerr := o4.DialReal(cw, b.ClientArgsCert())
+							<-done
+							if cerr != nil || serr != nil {
+								c.Violation("handshake/failed", fmt.Sprintf("interleaved group: %v / %v", cerr, serr), nil)
+								continue
+							}
+							links = append(links, mon.Link{Name: fmt.Sprintf("bridge%d-conn%d", bi, k), A: cc, B: sc})
+						}
+					}
+					mon.Interleave(c, r, "interleaved-connections", links, r.Sub("il", g))
+					for _, w := range wires {
+						w.Close()
+					}
+				})
+			}()
 		})
 	}
 
